@@ -361,7 +361,7 @@ def mut_strat(rng, p):
     if rng.random() < 0.5:
         it = ("neg", rel, [("w",)] * n)
     else:
-        it = ("agg", "c15v", "count", [], rel, [("w",)] * n)
+        it = ("agg", "c15s", "count", [], rel, [("w",)] * n)
     r["body"].insert(rng.randrange(len(r["body"]) + 1), it)
     return dict(cls="not_stratified", detail=rel, where="self" if a == b else "via_other_rule", form=it[0])
 
@@ -549,7 +549,7 @@ def mut_agg_unbound(rng, p):
     if not rules:
         raise NoSite()
     r = rng.choice(rules)
-    r["body"].insert(rng.randrange(len(r["body"]) + 1), ("agg", "c15v", "sum", ["c15z"], AUX, [("w",)]))
+    r["body"].insert(rng.randrange(len(r["body"]) + 1), ("agg", "c15u", "sum", ["c15y"], AUX, [("w",)]))
     return dict(cls="agg_unbound", detail=None)
 
 
